@@ -1,6 +1,7 @@
 package main
 
 import (
+	"reflect"
 	"fmt"
 	"go/token"
 	"go/types"
@@ -44,6 +45,118 @@ func (x *Exec) deepCopyJSON(v Value) Value {
 		return copyVal(v)
 	}
 	return v
+}
+
+// jsonField: how encoding/json names a struct field and whether it may be omitted.
+func jsonField(f *types.Var, tag string) (name string, omitEmpty, omitZero, skip bool) {
+	name = f.Name()
+	if !f.Exported() {
+		return "", false, false, true
+	}
+	jt := reflect.StructTag(tag).Get("json")
+	if jt == "-" {
+		return "", false, false, true
+	}
+	parts := strings.Split(jt, ",")
+	if parts[0] != "" {
+		name = parts[0]
+	}
+	for _, o := range parts[1:] {
+		if o == "omitempty" {
+			omitEmpty = true
+		}
+		if o == "omitzero" {
+			omitZero = true
+		}
+	}
+	return
+}
+
+// jsonEmpty: would encoding/json omit this value under omitempty? (nil, false, 0, "", empty slice/map).
+// ok=false when emptiness is not decided by the value's shape (symbolic scalars: omitting a zero scalar and writing
+// it decode to the same thing, so the caller treats them as present).
+func (x *Exec) jsonEmpty(v Value) bool {
+	switch v := v.(type) {
+	case *Pointer:
+		return v == nil
+	case *IfaceV:
+		return v == nil
+	case *MapV:
+		return v == nil || len(v.Entries) == 0
+	case *SliceV:
+		return v == nil || (v.LenT == nil && v.Len == 0)
+	case *StrV:
+		return len(v.B) == 0
+	case *Term:
+		if v.IsConc() {
+			switch c := v.C.(type) {
+			case string:
+				return c == ""
+			case bool:
+				return !c
+			case int64:
+				return c == 0
+			}
+		}
+	}
+	return false
+}
+
+// jsonConvert models "marshal a value of type st, unmarshal the text into a value of type dt" for two different
+// struct types: members are matched by their JSON names (case-sensitively), omitempty members that are empty are
+// not transmitted, members unknown to the target are ignored. Everything else must have identical types.
+func (x *Exec) jsonConvert(v Value, st, dt types.Type) (Value, bool) {
+	if types.Identical(st, dt) {
+		return x.deepCopyJSON(v), true
+	}
+	if isEmptyIface(dt) {
+		return &IfaceV{T: st, V: x.deepCopyJSON(v)}, true
+	}
+	if sp, ok := st.Underlying().(*types.Pointer); ok {
+		if _, isStruct := sp.Elem().Underlying().(*types.Struct); isStruct {
+			p, _ := v.(*Pointer)
+			if p == nil {
+				return x.zero(dt), true
+			}
+			return x.jsonConvert(x.load(p), sp.Elem(), dt)
+		}
+	}
+	ss, ok1 := st.Underlying().(*types.Struct)
+	ds, ok2 := dt.Underlying().(*types.Struct)
+	if !ok1 || !ok2 {
+		return nil, false
+	}
+	sa, _ := v.(*Agg)
+	out, _ := x.zero(dt).(*Agg)
+	if sa == nil || out == nil {
+		return nil, false
+	}
+	for i := 0; i < ds.NumFields(); i++ {
+		dn, _, _, skip := jsonField(ds.Field(i), ds.Tag(i))
+		if skip || ds.Field(i).Embedded() {
+			continue
+		}
+		for j := 0; j < ss.NumFields(); j++ {
+			sn, omitEmpty, omitZero, sskip := jsonField(ss.Field(j), ss.Tag(j))
+			if sskip || sn != dn {
+				continue
+			}
+			if ss.Field(j).Embedded() {
+				return nil, false
+			}
+			fv := sa.Elems[j]
+			if (omitEmpty || omitZero) && x.jsonEmpty(fv) {
+				break // not transmitted: the target keeps its zero value
+			}
+			cv, ok := x.jsonConvert(fv, ss.Field(j).Type(), ds.Field(i).Type())
+			if !ok {
+				return nil, false
+			}
+			out.Elems[i] = cv
+			break
+		}
+	}
+	return out, true
 }
 
 func isEmptyIface(t types.Type) bool {
@@ -453,6 +566,12 @@ func harnessIntrinsic(short string) intrinsicFn {
 		return func(x *Exec, _ *ssa.Function, a []Value) Value {
 			return x.byteSlice(x.newToken("json", a[0]).B)
 		}
+	case "vJSONMiscased":
+		return func(x *Exec, _ *ssa.Function, a []Value) Value {
+			t := x.newToken("json", a[0])
+			x.tokens[len(x.tokens)-1].(*tokenInfo).miscased = true
+			return x.byteSlice(t.B)
+		}
 	case "vEncode":
 		// vEncode(kind, s): uninterpreted encoder; the result is an opaque token remembering s
 		return func(x *Exec, _ *ssa.Function, a []Value) Value {
@@ -481,6 +600,9 @@ type jsonViews struct{ views []Value }
 type tokenInfo struct {
 	kind string
 	arg  Value
+	// miscased: a JSON text whose object member names differ from the Go field names/tags only in letter case.
+	// A case-sensitive decoder matches none of them; encoding/json's default matching fills the fields.
+	miscased bool
 }
 
 func (x *Exec) newToken(kind string, arg Value) *StrV {
@@ -1231,6 +1353,14 @@ func stdIntrinsic(name string, fn *ssa.Function) intrinsicFn {
 				return x.newErr("json: Unmarshal(non-pointer)")
 			}
 			p := dst.V.(*Pointer)
+			if ti.miscased {
+				if _, isStruct := pt.Elem().Underlying().(*types.Struct); !isStruct {
+					x.abort("UNSUPPORTED", "miscased JSON into a non-struct target")
+				}
+				if strings.HasSuffix(name, "go-sdk/internal/json.Unmarshal") {
+					return nilErr // case-sensitive decoder: no member matches, the target keeps its zero fields
+				}
+			}
 			var src *IfaceV
 			if mv, isMulti := ti.arg.(*jsonViews); isMulti {
 				for _, v := range mv.views {
@@ -1265,7 +1395,9 @@ func stdIntrinsic(name string, fn *ssa.Function) intrinsicFn {
 				x.store(p, &IfaceV{T: src.T, V: x.deepCopyJSON(src.V)})
 			default:
 				if sp, isPtr := src.T.(*types.Pointer); isPtr && types.Identical(pt.Elem(), sp.Elem()) && src.V.(*Pointer) != nil {
-					x.store(p, x.load(src.V.(*Pointer)))
+					x.store(p, x.deepCopyJSON(x.load(src.V.(*Pointer))))
+				} else if cv, ok := x.jsonConvert(src.V, src.T, pt.Elem()); ok {
+					x.store(p, cv)
 				} else {
 					return x.newErr("json: cannot unmarshal into " + pt.Elem().String())
 				}
